@@ -431,3 +431,58 @@ def _pf_post(self, H, case, outcome, I, ctx):
 
 
 PortfolioSetup.post = _pf_post
+
+
+@register
+class PortfolioInit(Contract):
+    """Portfolio.__init__ (C09 "uniqueness check on asset names"; establishes the precondition of the assembly contract): refuses exactly the asset
+    lists in which two assets carry the same name -- whatever the names are (numeric, prefixes of each other: names are only compared for equality);
+    records the names in the order given and every node once, under its name, the first asset's node object winning.  Harness: three assets with
+    one or two nodes each; names of assets and nodes arbitrary (equal or not)."""
+    qualname = 'portfolio:Portfolio.__init__'
+    prefix = 'C09.init'
+    properties = ('C09', 'C07')
+
+    def harness(self, H, case):
+        names = [H.str(f'name{i}') for i in range(3)]
+        nn = [H.str(f'node_name{i}') for i in range(4)]
+        nodes = [Obj('Node', name=x) for x in nn]
+        assets = [Obj('Asset', name=names[0], nodes=[nodes[0]]), Obj('Asset', name=names[1], nodes=[nodes[1], nodes[2]]), Obj('Asset', name=names[2], nodes=[nodes[3]])]
+        for a in assets:
+            a.attrs['__isinstance__'] = ('Asset',)
+        self_obj = Obj('Portfolio')
+        return dict(self_obj=self_obj, args=[assets], assets=assets, names=names, nn=nn, nodes=nodes)
+
+    def post(self, H, case, outcome, I, ctx):
+        names, nn, nodes = ctx['names'], ctx['nn'], ctx['nodes']
+        clash = z3.Or(names[0] == names[1], names[0] == names[2], names[1] == names[2])
+        if outcome[0] == 'raise':
+            yield ('C09.init.refuses_only_equal_asset_names', z3.And(outcome[1] == 'AssertionError', clash) if isinstance(outcome[1], str) else Havoc('raise'))
+            return
+        if outcome[0] != 'return':
+            yield ('C09.init.modelled', Havoc(outcome[1]))
+            return
+        so = ctx['self_obj']
+        yield ('C09.init.accepts_only_pairwise_distinct_asset_names', z3.Not(clash))
+        yield ('C09.init.keeps_assets_and_names_in_the_given_order', so.get('assets') is ctx['assets'] and list(so.get('asset_names')) == names)
+        nd = so.get('nodes')
+        ok = isinstance(nd, SymMap)
+        yield ('C09.init.nodes_by_name', ok)
+        if ok:
+            items = list(nd.items)
+            # every recorded pair is (name of a node of some asset, that node object); recorded names are pairwise different; every node's name is recorded
+            yield ('C09.init.recorded_nodes_are_the_assets_nodes_under_their_own_names', all(any(k is nn[j] and v is nodes[j] for j in range(4)) for k, v in items))
+            ks = [k for k, _ in items]
+            yield ('C09.init.every_node_name_recorded_once', z3.And(*[z3.Or(*[nn[i] == k for k in ks]) for i in range(4)],
+                                                                     *[ks[i] != ks[j] for i in range(len(ks)) for j in range(i)]) if ks else False)
+            # the first asset's node object wins: a recorded pair is the first node in list order with that name
+            firsts = []
+            for k, v in items:
+                j = next(j for j in range(4) if nn[j] is k)
+                firsts.append(z3.And(*[nn[i] != k for i in range(j)]) if j else z3.BoolVal(True))
+            yield ('C09.init.first_node_object_with_a_name_wins', z3.And(*firsts) if firsts else False)
+
+
+def got_is(got, node):
+    """`got` (an ite chain over node objects is not representable: lookup returns the object when the path condition decides it) is `node`"""
+    return z3.BoolVal(got is node)
